@@ -46,6 +46,20 @@ def scenario(hist, entry, rng, variant=0):
         for q in rng.sample(range(m), 3):
             lifecycle.observe_all(hist, obj, entry, lifecycle.take(P, [q]), "RowPure", note=who + " single row")
         lifecycle.observe_all(hist, obj, entry, P, "RowPure", note=who + " repeated call")
+        # a bootstrap-like batch: rows drawn with repetition (for a frame: repeated index labels)
+        dup = [rng.randrange(m) for _ in range(m)]
+        dup[1] = dup[0]
+        lifecycle.observe_all(hist, obj, entry, lifecycle.take(P, dup), "RowPure", note=who + " resampled batch")
+        # a preallocated buffer: the same container object is filled with other rows between two calls
+        B = P.copy()
+        lifecycle.observe_all(hist, obj, entry, B, "RowPure", note=who + " buffer")
+        perm2 = perm[1:] + perm[:1]
+        if hasattr(B, "iloc"):
+            for col in list(B.columns):
+                B[col] = P[col].values[perm2]
+        else:
+            B[...] = P[perm2]
+        lifecycle.observe_all(hist, obj, entry, B, "RowPure", note=who + " buffer refilled in place")
 
 
 def run(ctx):
